@@ -61,7 +61,11 @@ func verifCheckLogs(orig, dec plog.Logs, p string) {
 func verifRoundTripLogs(p *Producer, c *Consumer, ld plog.Logs, tag string) {
 	orig := plog.NewLogs()
 	ld.CopyTo(orig)
+	rt.WatchBegin("input", ld)
+	h0 := rt.WatchHits()
 	bar, err := p.BatchArrowRecordsFromLogs(ld)
+	rt.Assert(rt.WatchHits() == h0, "C15.frame_input.logs_untouched")
+	rt.WatchEndTag("input")
 	rt.Assert(err == nil, tag+".encode_ok")
 	if err != nil {
 		return
